@@ -134,6 +134,7 @@ func main() {
 	hintsF := flag.Bool("hints", false, "presentational hints for -html")
 	corpusDir := flag.String("corpus", "/verif/corpus/C01", "regression corpus directory")
 	confirmMs := flag.Int("confirm-ms", 40000, "second, longer watchdog for documents that exceeded the first one")
+	maxShrunk := flag.Int("max-shrunk", 60, "number of failing documents that are shrunk (the rest is reported unshrunk)")
 	maxShrink := flag.Int("shrink-calls", 120, "render budget per shrunk failing case in the stream")
 	flag.Parse()
 
@@ -272,7 +273,7 @@ func main() {
 			continue
 		}
 		nFail++
-		if nFail > 60 && !*triage { // a tree this broken is reported unshrunk
+		if nFail > *maxShrunk && !*triage { // a tree this broken is reported unshrunk
 			continue
 		}
 		wg.Add(1)
